@@ -41,8 +41,17 @@ func contKey(o Op) []string {
 
 // fillOp is the i-th leaf of a "fill" op as a plain update.
 func fillOp(o Op, i int) Op {
-	return Op{Kind: "update", Path: []gn.Elem{{Name: "fill"}, {Name: "e", Keys: map[string]string{"id": fmt.Sprint(i)}}, {Name: "v"}},
+	return Op{Kind: "update", Origin: o.Origin, PTarget: o.PTarget, NoPrefix: o.NoPrefix, Path: []gn.Elem{{Name: "fill"}, {Name: "e", Keys: map[string]string{"id": fmt.Sprint(i)}}, {Name: "v"}},
 		Val: gn.Val{Kind: "string", S: fmt.Sprintf("f%d.%d", o.Ver, i)}, Pad: o.Pad}
+}
+
+// prefixOf is the prefix message of the notification an op is sent as: origin and target as the device writes them
+// (see Op.PTarget), the elements given - or none at all.
+func prefixOf(o Op, elems []gn.Elem, element bool) *pb.Path {
+	if o.NoPrefix && o.Origin == "" && o.PTarget == "" && len(elems) == 0 {
+		return nil
+	}
+	return gn.Path(o.PTarget, o.Origin, elems, element, 0)
 }
 
 type model struct {
@@ -81,6 +90,16 @@ func (m *model) apply(o Op, st *stats) {
 		return
 	}
 	defer note(func(s *stats) { s.lastAwait = "" })
+	if isMessage(o.Kind) {
+		note(func(s *stats) { s.notePrefix(o) })
+	}
+	if o.Kind == "quiet" {
+		note(func(s *stats) {
+			if o.N > s.quietMs {
+				s.quietMs = o.N
+			}
+		})
+	}
 	noteVal := func(u Op) {
 		note(func(s *stats) {
 			s.kinds[u.Val.Kind] = true
@@ -229,17 +248,17 @@ func wire(o Op, ts *int64) []*pb.SubscribeResponse {
 	case "sync":
 		return []*pb.SubscribeResponse{syncResp()}
 	case "update":
-		return []*pb.SubscribeResponse{resp(&pb.Notification{Timestamp: next(ts), Prefix: gn.Path("", o.Origin, o.Prefix, o.Element, 0),
+		return []*pb.SubscribeResponse{resp(&pb.Notification{Timestamp: next(ts), Prefix: prefixOf(o, o.Prefix, o.Element),
 			Update: []*pb.Update{{Path: gn.Path("", "", o.Path, o.Element, 0), Val: expand(o.Val, o.Pad).TV()}}})}
 	case "delete":
-		return []*pb.SubscribeResponse{resp(&pb.Notification{Timestamp: next(ts), Prefix: gn.Path("", o.Origin, nil, false, 0), Delete: []*pb.Path{gn.Path("", "", o.Path, false, 0)}})}
+		return []*pb.SubscribeResponse{resp(&pb.Notification{Timestamp: next(ts), Prefix: prefixOf(o, nil, false), Delete: []*pb.Path{gn.Path("", "", o.Path, false, 0)}})}
 	case "multi":
 		all := append(append([]gn.Elem{}, o.Prefix...), o.Path...)
-		return []*pb.SubscribeResponse{resp(&pb.Notification{Timestamp: next(ts), Prefix: gn.Path("", o.Origin, nil, false, 0),
+		return []*pb.SubscribeResponse{resp(&pb.Notification{Timestamp: next(ts), Prefix: prefixOf(o, nil, false),
 			Delete: []*pb.Path{gn.Path("", "", all[:o.Cut], false, 0)},
 			Update: []*pb.Update{{Path: gn.Path("", "", all, false, 0), Val: expand(o.Val, o.Pad).TV()}}})}
 	case "atomic", "group":
-		n := &pb.Notification{Timestamp: next(ts), Prefix: gn.Path("", o.Origin, o.Prefix, false, 0), Atomic: o.Kind == "atomic"}
+		n := &pb.Notification{Timestamp: next(ts), Prefix: prefixOf(o, o.Prefix, false), Atomic: o.Kind == "atomic"}
 		for _, u := range o.Ups {
 			n.Update = append(n.Update, &pb.Update{Path: gn.Path("", "", u.Path, false, 0), Val: expand(u.Val, u.Pad).TV()})
 		}
@@ -247,7 +266,7 @@ func wire(o Op, ts *int64) []*pb.SubscribeResponse {
 	case "fill":
 		var out []*pb.SubscribeResponse
 		for i := 0; i < o.N; i += fillBatch {
-			n := &pb.Notification{Timestamp: next(ts), Prefix: &pb.Path{}}
+			n := &pb.Notification{Timestamp: next(ts), Prefix: prefixOf(o, nil, false)}
 			for j := i; j < o.N && j < i+fillBatch; j++ {
 				f := fillOp(o, j)
 				n.Update = append(n.Update, &pb.Update{Path: gn.Path("", "", f.Path, false, 0), Val: expand(f.Val, f.Pad).TV()})
@@ -260,8 +279,9 @@ func wire(o Op, ts *int64) []*pb.SubscribeResponse {
 }
 
 // report is what the device sends first on a new stream after a break: its current state.
-// Plain leaves in the elem encoding travel bundled per origin (a device reports its state
-// in bulk), everything else as the notification that created it.
+// Plain leaves in the elem encoding travel bundled per origin and per way the device fills in
+// the rest of the prefix (a device reports its state in bulk), everything else as the
+// notification that created it.
 func (m *model) report(ts *int64) []*pb.SubscribeResponse {
 	var out []*pb.SubscribeResponse
 	bundles := map[string]*pb.Notification{}
@@ -272,18 +292,19 @@ func (m *model) report(ts *int64) []*pb.SubscribeResponse {
 			out = append(out, wire(*u, ts)...)
 			continue
 		}
-		n := bundles[u.Origin]
+		bk := fmt.Sprintf("%s\x00%s\x00%v", u.Origin, u.PTarget, u.NoPrefix)
+		n := bundles[bk]
 		if n == nil {
-			n = &pb.Notification{Prefix: gn.Path("", u.Origin, nil, false, 0)}
-			bundles[u.Origin] = n
-			order = append(order, u.Origin)
+			n = &pb.Notification{Prefix: prefixOf(*u, nil, false)}
+			bundles[bk] = n
+			order = append(order, bk)
 		}
 		all := append(append([]gn.Elem{}, u.Prefix...), u.Path...)
 		n.Update = append(n.Update, &pb.Update{Path: gn.Path("", "", all, false, 0), Val: expand(u.Val, u.Pad).TV()})
 		if len(n.Update) >= fillBatch {
 			n.Timestamp = next(ts)
 			out = append(out, resp(n))
-			delete(bundles, u.Origin)
+			delete(bundles, bk)
 		}
 	}
 	for _, o := range order {
